@@ -46,7 +46,8 @@ impl ColorOptimizer {
                     match *map.and_then(|m| m.get(&attr_ch.ch)).unwrap_or(&GlyphShape::Mixed) {
                         GlyphShape::Whitespace => {
                             attribute.set_foreground(cur_attr.get_foreground());
-                            if self.normalize_whitespace && map.is_some_and(|m| m.contains_key(&' ')) {
+                            // ' ' stands for "empty" only where it is an empty glyph itself (an embedded font may draw something there)
+                            if self.normalize_whitespace && map.is_some_and(|m| matches!(m.get(&' '), Some(GlyphShape::Whitespace))) {
                                 ch = ' ';
                             }
                         }
